@@ -160,7 +160,7 @@ def main() -> int:
         rp = json.load(open(replay))
         paths, npairs = [rp["deck"]], 0
     else:
-        paths = corpus.decks() if thorough else corpus.subset(6, E.seed())
+        paths = corpus.decks() if thorough else sorted(set(corpus.subset(6, E.seed()) + corpus.opc_key_decks()))
         npairs = 60 if thorough else 12
     jobs = E.pmap(_deck_job, [(p, ("path", "stream", "dir"), npairs, E.seed(), work) for p in paths], procs=16, chunk=1)
     if replay:
